@@ -5,8 +5,10 @@ import (
 	"go/ast"
 	"go/token"
 	"go/types"
+	"strings"
 
 	"golang.org/x/tools/go/cfg"
+	"golang.org/x/tools/go/ssa"
 
 	"zverif/checker/an"
 )
@@ -20,6 +22,8 @@ func c32(p *an.Prog, r *an.R, tier string) {
 	r.Rule("C32.R3", "inside the loop over assigned repositories a repository found in the trash is restored with moveAll(indexDir, …)")
 	c32Vacuum(p, r)
 	c32Compound(p, r)
+	c32Inconsistent(p, r)
+	c32SharedIDs(p, r)
 	f := p.Func(isrv, "cleanup")
 	d := p.Decl(f)
 	removeAll := p.Func(isrv, "removeAll")
@@ -413,6 +417,180 @@ func c32Compound(p *an.Prog, r *an.R) {
 		}
 	}
 	r.Floor("C32.R5.compound-removals", 1, n)
+}
+
+// c32Inconsistent: shards taken from the index map are handed to removeAll only
+// after the tombstone route was offered for each of them individually.
+func c32Inconsistent(p *an.Prog, r *an.R) {
+	r.Rule("C32.R6", "cleanup hands index shards to removeAll only element-wise filtered: every element appended to the removed slice is on the not-taken edge of maybeSetTombstone([]shard{element}, ..); the raw shard list of a repository is never removed")
+	f := p.Func(isrv, "cleanup")
+	d := p.Decl(f)
+	removeAll := p.Func(isrv, "removeAll")
+	tomb := p.Func(isrv, "maybeSetTombstone")
+	if !r.Anchor(d != nil && removeAll != nil && tomb != nil, isrv+".cleanup / removeAll / maybeSetTombstone") {
+		return
+	}
+	info := d.Pkg.TypesInfo
+	g := an.NewG(info, d.Decl.Body)
+	var trash types.Object
+	ast.Inspect(d.Decl.Body, func(n ast.Node) bool {
+		if id, ok := n.(*ast.Ident); ok && id.Name == "trash" && trash == nil && info.Defs[id] != nil {
+			trash = info.Defs[id]
+		}
+		return true
+	})
+	rangeOf := func(v types.Object) *ast.RangeStmt {
+		var out *ast.RangeStmt
+		ast.Inspect(d.Decl.Body, func(n ast.Node) bool {
+			if rs, ok := n.(*ast.RangeStmt); ok && rs.Value != nil {
+				if id, ok := rs.Value.(*ast.Ident); ok && info.ObjectOf(id) == v {
+					out = rs
+				}
+			}
+			return true
+		})
+		return out
+	}
+	n := 0
+	for _, c := range an.CallsTo(info, d.Decl.Body, false, removeAll) {
+		if len(c.Args) != 1 {
+			continue
+		}
+		id, ok := ast.Unparen(c.Args[0]).(*ast.Ident)
+		if !ok {
+			continue
+		}
+		v := info.ObjectOf(id)
+		if rs := rangeOf(v); rs != nil {
+			if isIdentOf(info, rs.X, trash) {
+				continue // shards that already sit in the trash
+			}
+			n++
+			r.Bad("C32.R6", fmt.Sprintf("%s.cleanup/removeAll#%d/raw-shard-list", isrv, n), c.Pos(), "the complete shard list of a repository in the index is removed without offering the tombstone route per shard: a compound shard in that list is deleted together with the other repositories it holds")
+			continue
+		}
+		// a local slice: every append is on the not-taken edge of maybeSetTombstone([]shard{elem})
+		n++
+		key := fmt.Sprintf("%s.cleanup/removeAll#%d/elements-filtered", isrv, n)
+		okAll, nApp := true, 0
+		for _, l := range g.Locs(func(ast.Node) bool { return true }) {
+			as, isA := g.Node(l).(*ast.AssignStmt)
+			if !isA || len(as.Lhs) != 1 || !isIdentOf(info, as.Lhs[0], v) {
+				continue
+			}
+			ac, isC := ast.Unparen(as.Rhs[0]).(*ast.CallExpr)
+			if !isC || !an.IsBuiltin(info, ac, "append") || len(ac.Args) != 2 {
+				continue
+			}
+			nApp++
+			elem := ac.Args[1]
+			offered := g.GuardedBy(l, func(cond ast.Expr, truth bool) bool {
+				if truth {
+					return false
+				}
+				hit := false
+				ast.Inspect(cond, func(m ast.Node) bool {
+					tc, isT := m.(*ast.CallExpr)
+					if !isT || an.Callee(info, tc) != tomb {
+						return true
+					}
+					if cl, isL := ast.Unparen(tc.Args[0]).(*ast.CompositeLit); isL && len(cl.Elts) == 1 && sameExpr(cl.Elts[0], elem) {
+						hit = true
+					}
+					return true
+				})
+				return hit
+			}, nil)
+			if !offered {
+				okAll = false
+			}
+		}
+		r.Check(okAll && nApp > 0, "C32.R6", key, c.Pos(), "each removed shard was first offered the tombstone route", "a shard can be put on the list handed to removeAll without the tombstone route having been offered for it: a compound shard is deleted together with the other repositories it holds")
+	}
+	r.Floor("C32.R6.removals-of-index-shards", 1, n)
+}
+
+// c32SharedIDs: the assigned-ID list is handed to the cleanup goroutine and to
+// the queue; nobody may write through it.
+func c32SharedIDs(p *an.Prog, r *an.R) {
+	r.Rule("C32.R7", "no function of the indexserver package writes through a []uint32 parameter (element store, or append onto a re-slice of it): the assigned-ID list is shared between cleanup and the queue")
+	pkg := p.Pkg(isrv)
+	if !r.Anchor(pkg != nil, isrv) {
+		return
+	}
+	nFn, nBad := 0, 0
+	for _, f := range p.SSAFuncs() {
+		if f.Pkg == nil || f.Pkg.Pkg != pkg.Types || f.Synthetic != "" {
+			continue
+		}
+		if strings.HasSuffix(p.Fset.Position(f.Pos()).Filename, "_test.go") {
+			continue
+		}
+		var params []ssa.Value
+		for _, pr := range f.Params {
+			if sl, ok := pr.Type().Underlying().(*types.Slice); ok {
+				if b, ok := sl.Elem().Underlying().(*types.Basic); ok && b.Kind() == types.Uint32 {
+					params = append(params, pr)
+				}
+			}
+		}
+		if len(params) == 0 {
+			continue
+		}
+		nFn++
+		// values that share the parameter's backing array
+		shared := map[ssa.Value]bool{}
+		for _, pr := range params {
+			shared[pr] = true
+		}
+		for changed := true; changed; {
+			changed = false
+			an.Instrs(f, func(b *ssa.BasicBlock, in ssa.Instruction) {
+				switch x := in.(type) {
+				case *ssa.Slice:
+					if shared[x.X] && !shared[x] {
+						shared[x] = true
+						changed = true
+					}
+				case *ssa.Phi:
+					for _, e := range x.Edges {
+						if shared[e] && !shared[x] {
+							shared[x] = true
+							changed = true
+						}
+					}
+				case *ssa.Call:
+					// append(shared, ...) may write into the shared array and returns a value that may still share it
+					if bi, ok := x.Common().Value.(*ssa.Builtin); ok && bi.Name() == "append" && len(x.Common().Args) > 0 && shared[x.Common().Args[0]] && !shared[x] {
+						shared[x] = true
+						changed = true
+					}
+				}
+			})
+		}
+		an.Instrs(f, func(b *ssa.BasicBlock, in ssa.Instruction) {
+			switch x := in.(type) {
+			case *ssa.Call:
+				if bi, ok := x.Common().Value.(*ssa.Builtin); ok && bi.Name() == "append" && len(x.Common().Args) > 0 && shared[x.Common().Args[0]] {
+					// appending onto the parameter itself at full length reallocates unless cap > len; onto a shorter re-slice it overwrites
+					if _, isParam := x.Common().Args[0].(*ssa.Parameter); isParam {
+						return
+					}
+					nBad++
+					r.Bad("C32.R7", an.SSAName(f)+"/append-onto-reslice-of-parameter", x.Pos(), "appends onto a re-slice of its []uint32 parameter: the caller's list is overwritten in place (the assigned-ID list is read by cleanup concurrently and afterwards)")
+				}
+			case *ssa.Store:
+				if ia, ok := x.Addr.(*ssa.IndexAddr); ok && shared[ia.X] {
+					nBad++
+					r.Bad("C32.R7", an.SSAName(f)+"/element-store-into-parameter", x.Pos(), "stores into an element of its []uint32 parameter: the caller's list is modified")
+				}
+			}
+		})
+	}
+	if nBad == 0 {
+		r.OK("C32.R7", isrv+"/uint32-slice-parameters-read-only", 0, fmt.Sprintf("%d functions with a []uint32 parameter, none writes through it", nFn))
+	}
+	r.Floor("C32.R7.functions-with-id-list-parameters", 3, nFn)
 }
 
 func c32Kind(info *types.Info, n ast.Node, tomb *types.Func) string {
